@@ -768,6 +768,29 @@ pub fn run_zoned(a: &Args, which: &str) {
                     }
                     out.emit(z_day(tz, ts, cls));
                 }
+                // calendar arithmetic that lands on a repeated or a skipped clock time: start from the clock time of
+                // an instant just after / just before a transition, a day, a week, a month or a year away
+                let pts = change_points(a, az, &mut rng);
+                let take = if quick { 6 } else { 40 };
+                for &(t, _) in pts.iter().rev().take(take) {
+                    for dx in [0i128, 1_000_000_000, 1_500_000_000_000, -1_000_000_000, -1_500_000_000_000] {
+                        let Some(near) = mkts(t as i128 * 1_000_000_000 + dx) else { continue };
+                        let target = Zoned::new(near, tz.clone()).datetime();
+                        for (ui, n) in [(3usize, 1i64), (3, -1), (2, 1), (1, -1), (0, 1), (1, 12)] {
+                            let mut u = [0i64; 10];
+                            u[ui] = n.abs();
+                            let Some(back) = mkspan(u, n > 0) else { continue };   // the opposite direction
+                            let Some(fwd) = mkspan(u, n < 0) else { continue };
+                            // the start is the civil time `target` moved away by the span; resolved any way jiff likes
+                            let Ok(start_dt) = target.checked_add(back) else { continue };
+                            if start_dt.checked_add(fwd).ok() != Some(target) {
+                                continue; // month-end clamping: the way back does not land on the target
+                            }
+                            let Ok(start) = start_dt.to_zoned(tz.clone()) else { continue };
+                            out.emit(z_add(tz, start.timestamp(), fwd, "lands-on-transition"));
+                        }
+                    }
+                }
             }
             "c07z" => {
                 for (i, &(ta, cls)) in insts.iter().enumerate() {
